@@ -97,9 +97,9 @@ def lit_py(l):
     if k == "a0":
         return np.array(float(v))
     if k == "a1":
-        return np.array([float(x) for x in v])
+        return make_arr([float(x) for x in v], l[2] if len(l) > 2 else None)
     if k == "a2":
-        return np.array([[float(x) for x in r] for r in v])
+        return make_arr([[float(x) for x in r] for r in v], l[2] if len(l) > 2 else None)
     if k == "aN":
         return np.ones((int(l[2]),) + (1,) * (int(v) - 1))
     if k == "l1":
@@ -107,6 +107,29 @@ def lit_py(l):
     if k == "l2":
         return [[float(x) for x in r] for r in v]
     raise ValueError(k)
+
+
+LAYOUTS = ["C", "F", "T", "neg", "strided", "int"]
+
+
+def make_arr(data, layout):
+    """the same logical array in different memory layouts / dtypes (NumPy semantics do not depend on them)"""
+    a = np.array(data, dtype=float)
+    if layout in (None, "C") or a.size == 0:
+        return a
+    if layout == "F":
+        return np.asfortranarray(a)
+    if layout == "T":
+        return np.ascontiguousarray(a.T).T                       # transposed view of a C-ordered buffer
+    if layout == "neg":
+        return np.ascontiguousarray(a[..., ::-1])[..., ::-1]     # negative-stride view
+    if layout == "strided":
+        big = np.full((2 * a.shape[0],) + a.shape[1:], 99.0)
+        big[::2] = a
+        return big[::2]                                          # non-contiguous slice
+    if layout == "int":
+        return a.astype(np.int64) if np.all(a == np.round(a)) else a
+    raise ValueError(layout)
 
 
 def lit_sexp(l):
@@ -576,7 +599,9 @@ class RecipeBuilder:
             return rng.choice([("int", small_int(rng)), ("float", rng.choice([0.5, 2.0, -1.5, 4.0])),
                                ("npf", rng.choice([2.0, 0.5])), ("npi", 2), ("a0", 2.0)])
         if c < 0.8:
-            return (rng.choice(["a1", "l1"]), rand_arr(rng, m, div=True))
+            if rng.random() < 0.5:
+                return ("a1", rand_arr(rng, m, div=True), rng.choice(LAYOUTS))
+            return ("l1", rand_arr(rng, m, div=True))
         if c < 0.9:
             return ("a2", [rand_arr(rng, m, div=True)])
         if same:
@@ -595,7 +620,9 @@ class RecipeBuilder:
         if ch < 0.55:
             return rng.choice([("int", small_int(rng)), ("float", 2.0), ("npf", 2.0), ("npi", 2), ("a0", 2.0)])
         if ch < 0.9:
-            return (rng.choice(["a2", "a2", "l2"]), [rand_arr(rng, c, div=True) for _ in range(r)])
+            if rng.random() < 0.66:
+                return ("a2", [rand_arr(rng, c, div=True) for _ in range(r)], rng.choice(LAYOUTS))
+            return ("l2", [rand_arr(rng, c, div=True) for _ in range(r)])
         return ("a1", rand_arr(rng, c, div=True))
 
     def grow(self):
@@ -611,7 +638,7 @@ class RecipeBuilder:
         if vvs:
             choices += ["vgetint", "vslice", "vslice", "vpow", "vnorm", "vfn", "diagmat"]
         if vecs:
-            choices += ["varith", "varith", "varith", "vrarith", "vrarith", "vneg", "vsum", "vdot", "vdot", "vmatmul",
+            choices += ["varith", "varith", "varith", "vrarith", "vrarith", "vneg", "vsum", "vdot", "vdot", "vdotmvp", "vdotmvp", "vmatmul",
                         "vrmatmul", "vrmatmul", "vegetint", "qf", "lincomb", "mvp"]
         if mats:
             choices += ["marith", "marith", "mrarith", "mneg", "msum", "mT"]
@@ -651,6 +678,12 @@ class RecipeBuilder:
             other = self.operand_for_vec(self.size(i), bad)
             if op == "**":
                 other = rng.choice([("int", 2), ("int", 3), ("float", 2.0)])
+            # exactness: a divisor is a literal or a plain variable container (values are signed powers of two);
+            # dividing by a computed expression would give non-dyadic values whose sums depend on the summation order
+            if op == "/" and ch == "varith" and other[0] == "r" and kind_of(self.regs[other[1]]) != "VectorVariable":
+                op = "*"
+            if op == "/" and ch == "vrarith" and kind_of(self.regs[i]) != "VectorVariable":
+                op = "-"
             if ch == "varith":
                 return self.add(("arith", op, ("r", i), other))
             if other[0] == "r":
@@ -669,6 +702,16 @@ class RecipeBuilder:
             if not same:
                 return self.grow()
             return self.add(("dot", ("r", i), ("r", rng.choice(same))))
+        if ch == "vdotmvp":
+            # u.dot(Q @ v): the QuadraticForm rewrite fires only for identical element objects
+            if not vvs:
+                return self.grow()
+            iv = rng.choice(vvs)
+            n = self.size(iv)
+            same = [j for j in vecs if self.size(j) == n]
+            q = [[float(rng.choice([1, 2, -1, 4, -2, 0])) for _ in range(n)] for _ in range(n)]
+            k = self.add(("mvp", ("a2", q, rng.choice(LAYOUTS)), ("r", iv)))
+            return self.add(("dot", ("r", rng.choice(same)), ("r", k)))
         if ch == "vmatmul":
             i = rng.choice(vecs)
             other = self.operand_for_vec(self.size(i), bad)
@@ -679,9 +722,10 @@ class RecipeBuilder:
             i = rng.choice(vecs)
             n = self.size(i) if not bad else rng.choice([k for k in range(1, 7) if k != self.size(i)])
             if rng.random() < 0.5:
-                other = (rng.choice(["a1", "l1"]), rand_arr(rng, n))
+                other = rng.choice([("a1", rand_arr(rng, n), rng.choice(LAYOUTS)), ("l1", rand_arr(rng, n))])
             else:
-                other = (rng.choice(["a2", "l2"]), [rand_arr(rng, n) for _ in range(rng.randint(1, 4))])
+                rows = [rand_arr(rng, n) for _ in range(rng.randint(1, 4))]
+                other = rng.choice([("a2", rows, rng.choice(LAYOUTS)), ("l2", rows)])
             return self.add(("matmul", other, ("r", i)))
         if ch == "qf":
             i = rng.choice(vecs)
@@ -701,6 +745,10 @@ class RecipeBuilder:
             other = self.operand_for_mat(self.regs[i].shape, bad)
             if op == "**":
                 other = rng.choice([("int", 2), ("float", 2.0)])
+            if op == "/" and ch == "marith" and other[0] == "r" and kind_of(self.regs[other[1]]) != "MatrixVariable":
+                op = "*"
+            if op == "/" and ch == "mrarith" and kind_of(self.regs[i]) != "MatrixVariable":
+                op = "-"
             if ch == "marith":
                 return self.add(("arith", op, ("r", i), other))
             if other[0] == "r":
@@ -831,6 +879,47 @@ def cell_cover():
                 out.append((f"matmul:{lk}:{rk}:{'bad' if bad else 'ok'}", base + [("matmul", a, b)]))
                 if lk in ("vv", "ve", "mvp"):
                     out.append((f"dot:{lk}:{rk}:{'bad' if bad else 'ok'}", base + [("dot", a, b)]))
+    # the same array operand in every memory layout / dtype (logical value unchanged)
+    for n, r, c in ((3, 2, 3), (4, 3, 3)):
+        base = base_recipe(n, r, c)
+        a2 = [[float(2 ** ((2 * i + j) % 3)) * (-1) ** i for j in range(c)] for i in range(r)]
+        a1 = [float(2 ** (i % 3)) * (-1) ** i for i in range(n)]
+        for lay in LAYOUTS:
+            for op in ("+", "-", "*", "/"):
+                for mk in ("mv", "me"):
+                    out.append((f"layout:{lay}", base + [("arith", op, ("r", OPERANDS_OPTYX[mk]), ("a2", a2, lay))]))
+                    out.append((f"layout:{lay}", base + [("arith", op, ("a2", a2, lay), ("r", OPERANDS_OPTYX[mk]))]))
+                for vk in ("vv", "ve", "mvp"):
+                    out.append((f"layout:{lay}", base + [("arith", op, ("r", OPERANDS_OPTYX[vk]), ("a1", a1, lay))]))
+                    out.append((f"layout:{lay}", base + [("arith", op, ("a1", a1, lay), ("r", OPERANDS_OPTYX[vk]))]))
+            for vk in ("vv", "ve"):
+                v = ("r", OPERANDS_OPTYX[vk])
+                sq = [[float((3 * i + j) % 5 - 2) for j in range(n)] for i in range(n)]
+                out.append((f"layout:{lay}", base + [("matmul", ("a1", a1, lay), v), ("matmul", v, ("a1", a1, lay)),
+                                                    ("lincomb", ("a1", a1, lay), v), ("mvp", ("a2", sq, lay), v),
+                                                    ("qf", v, ("a2", sq, lay))]))
+            out.append((f"layout:{lay}", base + [("matmul", ("a2", [[float((3 * i + j) % 5 - 2) for j in range(n)] for i in range(n)], lay),
+                                                          ("r", 0)), ("dot", ("r", 1), ("r", len(base)))]))
+    # u.dot(Q @ v) for every pair of equally long views (the QuadraticForm rewrite must need identical elements)
+    for n in (3, 4):
+        pre = [("vec", "x", 2 * n), ("mat", "A", n, n, False), ("T", ("r", 1)), ("vec", "y", n)]
+        views = [("getitem", ("r", 0), ("sl", 0, n, None)), ("getitem", ("r", 0), ("sl", 0, 2 * n, 2)),
+                 ("getitem", ("r", 0), ("sl", n - 1, None, -1)), ("getitem", ("r", 0), ("sl", 1, n + 1, None)),
+                 ("getitem", ("r", 0), ("sl", 0, n, None)), ("getitem", ("r", 0), ("sl", None, None, None)),
+                 ("mgetitem", ("r", 1), ("i", 0), ("sl", None, None, None)), ("mgetitem", ("r", 1), ("sl", None, None, None), ("i", 0)),
+                 ("diagonal", ("r", 1)), ("mgetitem", ("r", 2), ("i", 0), ("sl", None, None, None)),
+                 ("mgetitem", ("r", 1), ("i", 0), ("sl", None, None, -1)), ("mgetitem", ("r", 1), ("i", 1), ("sl", None, None, None)),
+                 ("imm", ("r", 3))]
+        q = ("a2", [[float((3 * i + 2 * j) % 7 - 3) for j in range(n)] for i in range(n)])
+        q2 = ("a2", [[float((3 * i + 2 * j) % 7 - 3) for j in range(2 * n)] for i in range(2 * n)])
+        k0 = len(pre)
+        for iu in range(len(views)):
+            for iv in range(len(views)):
+                ru, rv = k0 + iu, k0 + iv
+                steps = pre + views + [("mvp", q, ("r", rv)), ("dot", ("r", ru), ("r", k0 + len(views)))]
+                out.append(("dotmvp:views", steps))
+        out.append(("dotmvp:full", pre + [("mvp", q2, ("r", 0)), ("dot", ("r", 0), ("r", k0)),
+                                         ("getitem", ("r", 0), ("sl", None, None, None)), ("dot", ("r", k0 + 2), ("r", k0))]))
     # constructors with shape checks
     for n in (1, 2, 4):
         base = base_recipe(n, 2, n)
